@@ -10,13 +10,13 @@ from harness import c08 as H8
 
 PROPERTY = "C09"
 BOUNDS = {
-    "quick": "slice thicknesses: scalar thickness with ceil(H/t) <= 5 (case-split) and explicit sequences of 1..4 symbolic thicknesses; cell height symbolic; up to 3 atoms at "
+    "quick": "finite-projection margins: the padding and slicing margin handed on by _prepare_atoms for species sets {Li,F}, {C}, {Na,Cl} with symbolic cutoffs per species; slice thicknesses: scalar thickness with ceil(H/t) <= 5 (case-split) and explicit sequences of 1..4 symbolic thicknesses; cell height symbolic; up to 3 atoms at "
              "symbolic heights, including heights placed exactly on slice boundaries; additivity of the delta superposition over 2 atoms on every pixel pair (from the C08 harness)",
     "thorough": "up to 6 slices, 4 atoms",
 }
 OUTSIDE = ["ASE's wrap() of atoms into the cell", "finite-projection integrals (SlicedAtoms with padding: membership test only)",
            "explicit thickness sequences that validation accepts within its relative tolerance 1e-5 but that do not sum exactly to the height"]
-STUBS = ["np.digitize -> count of bin edges <= z", "np.cumsum -> running sum", "label_to_index -> captured (the labels are the subject)", "ase.Atoms -> duck-typed object exposing positions and cell"]
+STUBS = ["margin cases: integrator.cutoff(symbol) -> symbolic positive real per species; pad_atoms / SlicedAtoms -> recorders", "np.digitize -> count of bin edges <= z", "np.cumsum -> running sum", "label_to_index -> captured (the labels are the subject)", "ase.Atoms -> duck-typed object exposing positions and cell"]
 ASSUMPTIONS = ["thicknesses > 0 and, for explicit sequences, sum exactly to the cell height", "0 <= z <= H - 1e-10 (what _prepare_atoms guarantees after wrapping and snapping)"]
 
 import abtem.slicing as SL
@@ -150,6 +150,74 @@ def R_A(nsl, natoms, boundary):
 """, NSL=nsl, NA=natoms, BOUNDARY=boundary)
 
 
+def _margins(symbols):
+    """finite projection: the padding / slicing margin covers the cutoff of EVERY species present (an atom contributes to all slices
+    within its cutoff, so a smaller margin drops part of its potential from the slices)"""
+    rp = R_MARG(symbols)
+
+    def fn(c):
+        import ase
+        import abtem
+        import abtem.potentials.iam as IAM
+        uniq = sorted(set(symbols))
+        cut = {sym: c.real(f"cut_{sym}", 0, lo_strict=True) for sym in uniq}
+        atoms = ase.Atoms(symbols, positions=[(0.5 + i, 0.5, 0.5 + 0.7 * i) for i in range(len(symbols))], cell=(4.0, 4.0, 4.0))
+        pot = abtem.Potential(atoms, sampling=0.5, projection="finite", slice_thickness=1.0)
+        rec = {}
+
+        class Integ:
+            finite = True
+            periodic = pot.integrator.periodic
+
+            @staticmethod
+            def cutoff(sym):
+                return cut[sym]
+
+        def pad(a, margins=None, **k):
+            rec.setdefault("pad", []).append(margins)
+            return a
+
+        class Sliced:
+            def __init__(self, atoms=None, slice_thickness=None, z_padding=None, **k):
+                rec.setdefault("zpad", []).append(z_padding)
+
+        pot._integrator = Integ
+        patch.set(IAM, "pad_atoms", pad)
+        patch.set(IAM, "SlicedAtoms", Sliced)
+        pot._prepare_atoms()
+        got = rec.get("pad", []) + rec.get("zpad", [])
+        ok = [len(rec.get("zpad", [])) == 1]
+        for m in got:
+            ok.append(zand(*[_z(m) >= _z(cut[sym]) for sym in uniq]))
+            ok.append(sx.zor(*[_z(m) == _z(cut[sym]) for sym in uniq]))
+        c.prove("finite_projection.margin_covers_the_largest_cutoff_of_the_species_present", zand(*ok), replay=rp)
+        if len(uniq) > 1:
+            c.canary("finite_projection.canary_sum_of_cutoffs", zand(*[_z(m) == sum((_z(cut[sym]) for sym in uniq), z3.RealVal(0)) for m in got]) if got else z3.BoolVal(False))
+    return fn
+
+
+def R_MARG(symbols):
+    return make("""
+    import ase, abtem
+    import abtem.potentials.iam as IAM
+    from ase.data import chemical_symbols
+    atoms = ase.Atoms(SYMBOLS, positions=[(0.5 + i, 0.5, 0.5 + 0.7 * i) for i in range(len(SYMBOLS))], cell=(4.0, 4.0, 4.0))
+    pot = abtem.Potential(atoms, sampling=0.5, projection='finite', slice_thickness=1.0)
+    want = max(pot.integrator.cutoff(s) for s in set(SYMBOLS))
+    seen = []
+    real = IAM.SlicedAtoms
+    class Spy(real):
+        def __init__(self, *a, z_padding=None, **k):
+            seen.append(z_padding); super().__init__(*a, z_padding=z_padding, **k)
+    IAM.SlicedAtoms = Spy
+    try:
+        pot._prepare_atoms()
+    finally:
+        IAM.SlicedAtoms = real
+    if not seen or abs(seen[0] - want) > 1e-9: bad, why = True, f"species {sorted(set(SYMBOLS))}: slicing margin {seen} but the largest cutoff is {want}"
+""", SYMBOLS=list(symbols))
+
+
 def cases(tier):
     q = tier == "quick"
     out = [Case("validate.scalar", _validate_scalar(5 if q else 8), setup=_setup, concrete=_vsconc, vectors=[{"H": 4.08, "t": 1.0}, {"H": 6.0, "t": 2.0}], max_paths=400)]
@@ -160,4 +228,6 @@ def cases(tier):
         out.append(Case(f"assign.boundary.sl{nsl}.atoms{na}", _assign(nsl, na, boundary=True), setup=_setup, max_paths=5000))
     for shape in ((2, 3), (3, 2)):
         out.append(Case(f"additive.deltas.{shape[0]}x{shape[1]}", H8._deltas(shape, 2), setup=H8._setup, max_paths=20000, budget_s=300 if q else 1800))
+    for syms in (("Li", "F"), ("C",), ("Na", "Cl", "Na")) if q else (("Li", "F"), ("C",), ("Na", "Cl", "Na"), ("Au", "Cs", "O")):
+        out.append(Case("margins." + "_".join(syms), _margins(syms), setup=_setup))
     return out
